@@ -6,5 +6,7 @@ export CARGO_NET_OFFLINE=true
 python3 tools/gen_consts.py
 python3 -c "import sys; sys.path.insert(0,'tools'); import qv; rc,out=qv.coq_make([],3000); print(out[-3000:] if rc else 'coq build ok')"
 RUSTFLAGS="--cfg quandary_verif" CARGO_TARGET_DIR="$PWD/.build/target" timeout 3000 cargo build --offline --manifest-path harness/Cargo.toml --bins 2>&1 | tail -3
+# the real daemon, driven by C31 (warm build so that the first quick run is fast)
+CARGO_TARGET_DIR="$PWD/.build/target-qd" timeout 3000 cargo build --offline --bin quandaryd --manifest-path /repo/Cargo.toml 2>&1 | tail -1
 python3 tools/build_runners.py
 echo "setup done"
